@@ -906,6 +906,219 @@ func TestReplay(t *testing.T) {
 	}
 }
 
+const kfProsumerOrder = "prosumer-batches-out-of-order"
+
+func samePermutation(a, b []string) bool {
+	if len(a) != len(b) {
+		return false
+	}
+	count := map[string]int{}
+	for _, x := range a {
+		count[x]++
+	}
+	for _, x := range b {
+		count[x]--
+		if count[x] < 0 {
+			return false
+		}
+	}
+	return true
+}
+
+// prosumerOrderRepro: two batches whose callbacks are held so that the second overtakes the first.
+func prosumerOrderRepro() (bool, string) {
+	for attempt := 0; attempt < 200; attempt++ {
+		addr := fmt.Sprintf("c19f-%d", atomic.AddInt64(&rigSeq, 1))
+		broker := push.NewBroker(core.NewService())
+		broker.Timeout = 50 * time.Millisecond
+		broker.HeartBeat = 0
+		server := mock.Server{Address: addr}
+		if err := broker.Bind(server); err != nil {
+			return false, err.Error()
+		}
+		client := core.NewClient("mock://" + addr)
+		cons := push.NewProsumer(client, "cons")
+		var mu sync.Mutex
+		var got []string
+		cons.Subscribe("t", func(data string) {
+			if data == "m1" {
+				time.Sleep(3 * time.Millisecond) // the first batch's callback is slow; the second batch is dispatched meanwhile
+			}
+			mu.Lock()
+			got = append(got, data)
+			mu.Unlock()
+		})
+		broker.Push("m1", "t", "cons")
+		time.Sleep(time.Millisecond)
+		broker.Push("m2", "t", "cons")
+		time.Sleep(20 * time.Millisecond)
+		mu.Lock()
+		g := fmt.Sprint(got)
+		mu.Unlock()
+		cons.Unsubscribe("t")
+		client.Abort()
+		server.Close()
+		if g == "[m2 m1]" {
+			return true, "accepted m1 then m2 on one topic; the Prosumer's callback received " + g
+		}
+	}
+	return false, "200 attempts: the callback always saw m1 before m2"
+}
+
+// TestProsumer: the consumer is the library's own Prosumer (poll loop and callback dispatch). It subscribes to
+// topics at generated moments while publishers are sending; the broker greets every new subscription with a
+// message of its own from OnSubscribe, i.e. before the client has seen the reply to its subscribe call. Every
+// message the broker accepted must reach the topic's callback exactly once and in acceptance order.
+func TestProsumer(t *testing.T) {
+	ev.Check(t, "prosumer", ev.N(60, 3000), func(rt *rapid.T) {
+		ntopics := rapid.IntRange(1, 3).Draw(rt, "topics")
+		type step struct {
+			Kind  string // sub | pub | wait
+			Topic int
+			N     int
+		}
+		var steps []step
+		subscribed := map[int]bool{}
+		for k := rapid.IntRange(2, 10).Draw(rt, "nsteps"); k > 0; k-- {
+			tp := rapid.IntRange(0, ntopics-1).Draw(rt, "topic")
+			switch rapid.IntRange(0, 3).Draw(rt, "kind") {
+			case 0:
+				if !subscribed[tp] {
+					subscribed[tp] = true
+					steps = append(steps, step{"sub", tp, 0})
+				}
+			case 1:
+				steps = append(steps, step{"wait", 0, rapid.IntRange(1, 5).Draw(rt, "ms")})
+			default:
+				steps = append(steps, step{"pub", tp, rapid.IntRange(1, 6).Draw(rt, "n")})
+			}
+		}
+		greet := rapid.Bool().Draw(rt, "greet")
+		slowGreet := greet && rapid.Bool().Draw(rt, "slowGreet")
+		canon := fmt.Sprintf("prosumer topics=%d greet=%v slowGreet=%v steps=%v", ntopics, greet, slowGreet, steps)
+		ev.S.Begin("prosumer", canon)
+		addr := fmt.Sprintf("c19p-%d", atomic.AddInt64(&rigSeq, 1))
+		broker := push.NewBroker(core.NewService())
+		broker.Timeout = 50 * time.Millisecond
+		broker.HeartBeat = 0
+		var mu sync.Mutex
+		accepted := map[string][]string{}
+		got := map[string][]string{}
+		accept := func(topic, token string, ok bool) {
+			if ok {
+				mu.Lock()
+				accepted[topic] = append(accepted[topic], token)
+				mu.Unlock()
+			}
+		}
+		var pubMu sync.Mutex // one publisher at a time: acceptance order is the order of these calls
+		publish := func(topic, token string) {
+			pubMu.Lock()
+			defer pubMu.Unlock()
+			res := broker.Push(token, topic, "cons")
+			accept(topic, token, res["cons"])
+		}
+		if greet {
+			broker.OnSubscribe = func(ctx context.Context, id string, topic string) {
+				publish(topic, "welcome:"+topic)
+				if slowGreet {
+					time.Sleep(20 * time.Millisecond)
+				}
+			}
+		}
+		server := mock.Server{Address: addr}
+		if err := broker.Bind(server); err != nil {
+			rt.Fatalf("bind: %v", err)
+		}
+		defer server.Close()
+		client := core.NewClient("mock://" + addr)
+		client.Timeout = 10 * time.Second
+		cons := push.NewProsumer(client, "cons")
+		cons.RetryInterval = 5 * time.Millisecond
+		seq := 0
+		problem := ""
+		for _, st := range steps {
+			topic := fmt.Sprintf("t%d", st.Topic)
+			switch st.Kind {
+			case "sub":
+				tpc := topic
+				if _, err := cons.Subscribe(tpc, func(data string) {
+					mu.Lock()
+					got[tpc] = append(got[tpc], data)
+					mu.Unlock()
+				}); err != nil {
+					problem = fmt.Sprintf("subscribe(%s) failed: %v", tpc, err)
+				}
+			case "pub":
+				for i := 0; i < st.N; i++ {
+					seq++
+					publish(topic, fmt.Sprintf("%s-%04d", topic, seq))
+				}
+			case "wait":
+				time.Sleep(time.Duration(st.N) * time.Millisecond)
+			}
+			if problem != "" {
+				break
+			}
+		}
+		// drain: wait until everything accepted has arrived (or 3 s)
+		deadline := time.Now().Add(3 * time.Second)
+		for problem == "" {
+			mu.Lock()
+			done := true
+			for tpc, acc := range accepted {
+				if len(got[tpc]) < len(acc) {
+					done = false
+				}
+			}
+			mu.Unlock()
+			if done || time.Now().After(deadline) {
+				break
+			}
+			time.Sleep(2 * time.Millisecond)
+		}
+		time.Sleep(5 * time.Millisecond) // a duplicate would arrive now
+		mu.Lock()
+		nacc := 0
+		for tpc, acc := range accepted {
+			nacc += len(acc)
+			if problem == "" && fmt.Sprint(got[tpc]) != fmt.Sprint(acc) {
+				problem = fmt.Sprintf("topic %s: the broker accepted %v, the Prosumer's callback received %v", tpc, acc, got[tpc])
+				// open finding: the consumer is a Prosumer (input side) AND the callback saw exactly the accepted
+				// messages, each once, only in another order (failure side)
+				if ev.S.Known(kfProsumerOrder) && samePermutation(acc, got[tpc]) {
+					ev.S.Exclude(kfProsumerOrder, canon+" => "+problem)
+					problem = ""
+				}
+			}
+		}
+		for tpc, g := range got {
+			if _, ok := accepted[tpc]; !ok && len(g) > 0 && problem == "" {
+				problem = fmt.Sprintf("topic %s: the callback received %v although nothing was accepted", tpc, g)
+			}
+		}
+		mu.Unlock()
+		for tp := range subscribed {
+			cons.Unsubscribe(fmt.Sprintf("t%d", tp))
+		}
+		client.Abort()
+		ev.S.Case("prosumer", canon, nacc > 0 && len(subscribed) > 0, fmt.Sprintf("prosumer-greet=%v", greet), fmt.Sprintf("prosumer-topics=%d", len(subscribed)))
+		if problem != "" {
+			if os.Getenv("VERIF_TRIAGE") != "" {
+				fmt.Printf("TRIAGE %s | %s\n", problem, canon)
+				return
+			}
+			ev.S.Violation("prosumer", "TestProsumer", canon, problem, nil)
+			rt.Fatalf("%s\n=> %s", canon, problem)
+		}
+	})
+}
+
 func TestFinding(t *testing.T) {
+	if ev.FindingKey() == kfProsumerOrder {
+		ok, detail := prosumerOrderRepro()
+		ev.FindingResult(kfProsumerOrder, ok, detail)
+		return
+	}
 	t.Skip("no open finding " + ev.FindingKey())
 }
